@@ -84,7 +84,7 @@ func genTx(t *rapid.T, kinds []string, label string) transform {
 }
 
 func genC02(t *rapid.T) c02Case {
-	c := c02Case{Set: genOpenSet(t, 8, 4), Point: genPointHex(t)}
+	c := c02Case{Set: genOpenSet(t, 24, 6), Point: genPointHex(t)}
 	if len(c.Set.Label) > 64 {
 		c.Set.Label = c.Set.Label[:64]
 	}
